@@ -11,7 +11,7 @@ from sx.fsmodel import FS, Token
 PROPERTY = "C13"
 BOUNDS = {
     "quick": "(1) registries built by feeding 2 + 2 received lines to a real 2.2 gateway: node presentation (type sym [10,99]), child presentation (type sym [10,99], description symbolic |s|<=1), set (payload symbolic |s|<=1), battery (8-text class list incl. out-of-range and non-numeric), sketch name / version (symbolic |s|<=1), heartbeat (4 texts), pre-sleep; then save -> load into an empty registry, field-by-field comparison; values stay symbolic through a structure-preserving json fake (the battery range is decided for all integers), every witness re-run on real JSON text; (2) directly constructed registries: node ids {0,1,254,255}, node/child type sym [-2^40,2^40], heartbeat sym, battery sym [0,100], sleeping symbolic, value types {0,49,-1,2^33}; (3) legacy (pymysensors) layout == native layout; (4) 12 awkward strings (quotes, backslash, control, non-ASCII, astral, lone surrogate) through the real json",
-    "thorough": "as quick with symbolic strings |s|<=2, plus histories of 2 + 3 lines (|s|<=1)",
+    "thorough": "as quick with symbolic strings |s|<=2, plus histories of 2 + 3 lines (|s|<=1; lines 2 and 3 from {set, battery, sketch name, pre-sleep})",
 }
 REALISED = ["node / child ids and value types are concrete (marshmallow's Dict field hashes the keys, which would realise them anyway)", "battery / heartbeat / version texts are class lists"]
 STUBS = ["persistence.aiofiles -> in-memory file system", "persistence.json -> structure-preserving fake in symbolic runs (contract: loads(dumps(x)) == x with keys stringified); concrete twin uses the real json", "RecTransport"]
@@ -77,7 +77,12 @@ def sym_history(inp, part):
     lines = [M.line(1, 255, 0, 0, inp.int("ntype", 10, 99) if not thorough else inp.int("ntype", 0, 255), VERSION_TEXTS[inp.pick("nver", len(VERSION_TEXTS))] if thorough else "2.2"),
              M.line(1, 3, 0, 0, inp.int("ctype", 10, 99) if not thorough else inp.int("ctype", 0, 255), inp.str("desc", L, exclude=LINE_TERMINATORS, no_trailing_ws=True))]
     for i in range(part["steps"]):
-        k = part["first"] if i == 0 else inp.pick("k%d" % i, len(EVENT_KINDS))
+        if i == 0:
+            k = part["first"]
+        elif part["steps"] >= 3:
+            k = [2, 3, 4, 7][inp.pick("k%d" % i, 4)]  # 3-line histories: set / battery / sketch name / pre-sleep
+        else:
+            k = inp.pick("k%d" % i, len(EVENT_KINDS))
         kind = EVENT_KINDS[k]
         if kind == "present-node":
             lines.append(M.line(2, 255, 0, 0, 17, "2.0"))
@@ -112,16 +117,17 @@ def _direct_nodes(inp, part):
     big = 2 ** 40
     nid = part["node_id"]
     thorough = part.get("tier") == "thorough"
-    nd = Node(nid, inp.int("ntype", -big, big), VERSION_TEXTS[inp.pick("nver", len(VERSION_TEXTS))] if thorough else "2.2",
-              sketch_name=inp.str("sn", L), sketch_version=inp.str("sv", L) if thorough else "1.0",
+    nd = Node(nid, inp.int("ntype", -big, big), VERSION_TEXTS[inp.pick("nver", 2)] if thorough else "2.2",
+              sketch_name=inp.str("sn", L), sketch_version="1.0",
               battery_level=inp.int("battery", 0, 100), heartbeat=inp.int("heartbeat", -big, big), sleeping=inp.bool("sleeping"))
     nch = inp.pick("nch", 3 if thorough else 2)
+    L2 = 1 if thorough else L  # thorough: two children, shorter strings inside them
     vtypes = [0, 49, -1, 2 ** 33]
     for j in range(nch):
         cid = [254, 0][j]
-        ch = Child(cid, inp.int("ctype%d" % j, -big, big), description=inp.str("desc%d" % j, L) if thorough else "d")
+        ch = Child(cid, inp.int("ctype%d" % j, -big, big), description=inp.str("desc%d" % j, L2) if thorough else "d")
         if inp.bool("hasv%d" % j):
-            ch.values[vtypes[inp.pick("vt%d" % j, 4)]] = inp.str("val%d" % j, L)
+            ch.values[vtypes[inp.pick("vt%d" % j, 4)]] = inp.str("val%d" % j, L2)
         nd.children[cid] = ch
     return {nid: nd}
 
